@@ -946,6 +946,10 @@ def rule_stamps(ctx, facts, rule):
             ok = ok and _only_now(prov.of_operand(fn, t["args"][1]))
             ok = ok and has_origin(prov.of_operand(fn, t["args"][0]), kind="param", key=1, path_suffix=(".span_queue",))
         ctx.check(ok, rule, fn.path, fn.span, "finish_span stamps the indexed span's end_instant with Instant::now()", "", "end_with shape differs", extra="local-end")
+        every, wit = fn.must_pass([0], ew) if ew else (False, None)
+        ctx.check(every, rule, fn.path, fn.span, "finish_span stamps the end on every returning path (a span that was started is finished, also when the queue "
+                  "has filled up in the meantime)", "", "a path returns at bb%s without end_with: the span stays open and is closed at collection time" % wit,
+                  extra="local-end-always")
     for name in ("start_span", "add_event"):
         fn = ctx.need_fn(facts, SQ + name, rule)
         if fn is None:
